@@ -23,8 +23,9 @@ Theorem c20_typed_cast : forall (a : ast) (i : nat) (ty v : Z),
 Proof. exact a_cast_spec. Qed.
 Print Assumptions c20_typed_cast.
 
-(* c20_typed_every_type: "typed access returns the value last stored" for EVERY type tag of the table (okty: 18 payload types of
-   sizeof 1, 4, 8, 9, 12, 15, 16, 24, 32, 40 - in place, heap, and the sizes between one and two words): after ANY history, storing
+(* c20_typed_every_type: "typed access returns the value last stored" for EVERY type tag of the table (okty: 24 payload types of
+   sizeof 1, 4, 8, 9, 12, 15, 16, 24, 32, 40 - in place, heap, the sizes between one and two words, and pairs of DISTINCT types that
+   two translation units declare under the same name: tags 18..20 / 21..23, see c20_typed_same_name_other_unit): after ANY history, storing
    T(v) in holder i by the typed constructor or the typed operator= makes value_cast<T>(h[i]) yield v (normalised to the type's value
    range) and every other type a type error; a copy of that holder into another one (operator= / copy construction) and the other side
    of a swap yield v for T and a type error otherwise; no error flag.  The tag never enters the argument: value semantics are
@@ -43,8 +44,8 @@ Theorem c20_typed_every_type : forall (H M : nat) (tys : list Z) (ops : list op)
 Proof. exact last_stored_every_type. Qed.
 Print Assumptions c20_typed_every_type.
 
-(* non-vacuity: all 18 tags satisfy okty; a 12-byte payload (tag 12) stored, copied, swapped with an in-place int, written, re-assigned *)
-Example c20_every_tag_ok : forallb okty [0; 1; 2; 3; 4; 5; 6; 7; 8; 9; 10; 11; 12; 13; 14; 15; 16; 17] = true /\ okty 18 = false /\ okty (-1) = false.
+(* non-vacuity: all 24 tags satisfy okty; a 12-byte payload (tag 12) stored, copied, swapped with an in-place int, written, re-assigned *)
+Example c20_every_tag_ok : forallb okty [0; 1; 2; 3; 4; 5; 6; 7; 8; 9; 10; 11; 12; 13; 14; 15; 16; 17; 18; 19; 20; 21; 22; 23] = true /\ okty 24 = false /\ okty (-1) = false.
 Proof. exact every_tag_ok. Qed.
 Example c20_twelve_bytes_instance :
   let s := final 3 0 [] [OAssignVal 0 12 345; OConsCopy 1 0; OAssignVal 2 7 5; OSwap 0 2; OSetVal 2 346; OAssign 0 1] in
@@ -52,6 +53,40 @@ Example c20_twelve_bytes_instance :
   fst (cast s (hslot 0) 12) = Some 345 /\ fst (cast s (hslot 1) 12) = Some 345 /\ fst (cast s (hslot 2) 12) = Some 346 /\
   fst (cast s (hslot 2) 7) = None /\ fst (cast s (hslot 0) 14) = None.
 Proof. exact twelve_bytes_instance. Qed.
+
+(* c20_typed_same_name_other_unit: type identity, not type NAME.  Tags 18..20 are types of the harness's first translation unit
+   (Setting, Triple, Record in an unnamed namespace), tags 21..23 the second unit's types of exactly the same spelling: distinct C++
+   types whose std::type_info::name() strings are equal.  `twin ty` is the other unit's type of the same name (-1: there is none).
+   After ANY history, a value of type ty stored in holder i is refused through `twin ty` (null / bad_value_cast, state unchanged) while
+   ty itself yields the value - in the holder, in its copies (operator=, copy construction) and on the other side of a swap.  The model's
+   type test is `hty (slot s i) =? ty` (C++: `v.type() == typeid(T)`; tools/consts/C20.py anchors exactly that comparison in both checked
+   forms of value_cast): equality of types, which a comparison of type names does not implement. *)
+Theorem c20_typed_same_name_other_unit : forall (H M : nat) (tys : list Z) (ops : list op) (i ty v : Z) (o : op),
+  okh H i = true -> okty ty = true -> o = OAssignVal i ty v \/ o = OConsVal i ty v ->
+  let s := final H M tys (ops ++ [o]) in
+  fst (cast s (hslot i) (twin ty)) = None /\ snd (cast s (hslot i) (twin ty)) = s /\
+  fst (cast s (hslot i) ty) = Some (norm ty v) /\
+  (forall j c, okh H j = true -> j <> i ->
+     c = OAssign j i \/ c = OConsCopy j i \/ c = OSwap i j \/ c = OSwap j i ->
+     let s' := final H M tys ((ops ++ [o]) ++ [c]) in
+     fst (cast s' (hslot j) (twin ty)) = None /\ fst (cast s' (hslot j) ty) = Some (norm ty v)).
+Proof. exact same_name_other_unit_refused. Qed.
+Print Assumptions c20_typed_same_name_other_unit.
+(* the twin table (same size and representation, another tag), and both directions on a concrete history: unit A's Setting (18) stored,
+   copied, swapped; unit A's Record (20) adopted; unit B's Record (23) parsed into the map - the other unit's type of the same name is
+   refused everywhere; last conjunct: the observation of the case `cons_val(0,21,5), cast(0,18), cast(0,21)` *)
+Example c20_twin_table : map twin [18; 19; 20; 21; 22; 23] = [21; 22; 23; 18; 19; 20] /\ map twin [0; 7; 9; 12; 17; 24; -1] = [-1; -1; -1; -1; -1; -1; -1]
+  /\ forallb (fun t => (size_of (twin t) =? size_of t) && Bool.eqb (stored_inplace (twin t)) (stored_inplace t)) [18; 19; 20; 21; 22; 23] = true.
+Proof. exact twin_table. Qed.
+Example c20_same_name_other_unit_instance :
+  let s := final 3 1 [23] [OAssignVal 0 18 42; OConsCopy 1 0; ONew 20 7; OAdopt 2 0; OSwap 0 2; OParse 0 9 1] in
+  err s = false /\
+  map (fun i => fst (cast s (hslot i) 18)) [0; 1; 2] = [None; Some 42; Some 42] /\
+  map (fun i => fst (cast s (hslot i) 21)) [0; 1; 2] = [None; None; None] /\
+  fst (cast s (hslot 0) 20) = Some 7 /\ fst (cast s (hslot 0) 23) = None /\
+  fst (cast s (mslot 3 0) 23) = Some 9 /\ fst (cast s (mslot 3 0) 20) = None /\
+  run_case [0; 1; 0; 1; 0; 21; 5; 12; 0; 18; 12; 0; 21] = [21; 5; 1; -1; 0; 0; 0; 0; 0;  0; 0;  21; 5; 1; -1; 0; 0; 0; 0; 0;  1; 5;  21; 5; 1; -1; 0; 0; 0; 0; 0;  0; 0; 0; 0; 0].
+Proof. exact same_name_other_unit_instance. Qed.
 
 (* c20_in_place_only_if_fits: `in_place` is generated from the predicate of detail::vtable<T>() (value_store.h); the in-place table
    placement-constructs the object into the holder's single word (8 bytes on the LP64 target), so for ALL sizes the rule may select it
